@@ -53,7 +53,17 @@ def check_render(ctx, h, doc, cfg_desc, config):
         V("render", "unparseable-dot", {"error": str(e)[:200]})
         return None
     live = [n for n in h]
-    rank = {n.idx: r for r, n in enumerate(live)}
+    # position of each node in the document (hierarchy walk when index order is not hierarchy-consistent)
+    from ..engines.c_persist import correspondence
+    mem_nodes = [{"idx": n.idx, "parent": h[n].parent.idx if h[n].parent is not None else None,
+                  "children": [c.idx for c in h.children(n)]} for n in live]
+    doc_children = {}
+    for i, o in enumerate(doc["nodes"]):
+        if i != 0:
+            doc_children.setdefault(o["parent"], []).append(i)
+    rank = correspondence(ctx, mem_nodes, doc_children, 0, "render")
+    if rank is None:
+        return g
     # nodes
     ctx.checked("node")
     if sorted(g["nodes"]) != sorted(n.idx for n in live):
@@ -129,6 +139,19 @@ def run(ctx):
     from hugr.hugr.render import PALETTE, RenderConfig
 
     ch = ctx.ch
+    if ch.coin(1, 4, "mutated-workload"):
+        # "any HUGR with complete operations": also HUGRs whose indices carry a history (deletion, index reuse:
+        # a container can then have a lower index than its parent)
+        from ..engines import c_persist
+        ctx.profile = {}
+        prod = c_persist.produce(ctx, weights=(0, 1, 2), force_in_range=True)
+        if prod is None:
+            return
+        h, _in_range, label = prod
+        ctx.probe("rendered_hugr_with_mutation_history")
+        doc = json.loads(h.to_json())
+        g0 = check_render(ctx, h, doc, "default", None)
+        return
     feats = {"cond": ch.coin(3, 4, "f-cond"), "loop": ch.coin(3, 4, "f-loop"), "cfg": ch.coin(3, 4, "f-cfg"),
              "calls": True, "poly": ch.coin(1, 2, "f-poly"), "meta": ch.coin(3, 4, "f-meta")}
     try:
@@ -152,6 +175,10 @@ def run(ctx):
         ctx.discard = str(d)
         return
     h = sim.hugr
+    if ch.coin(1, 3, "root-name"):
+        # the renderer uses the root's "name" metadata as the graph title
+        h[h.root].metadata["name"] = ch.pick(["m", "my module", "né"], "name")
+        ctx.probe("root_name_metadata")
     doc = json.loads(h.to_json())
     if any(l[0].offset == -1 for l in h.links()):
         ctx.probe("order_edges_rendered")
